@@ -302,6 +302,24 @@ def order_oracle(case) -> core.CaseResult:
     if not orders:
         res.cls("below_noise_floor")
         return res
+    # The order is a statement about the limit dt -> 0.  It is judged only where the scheme itself - an
+    # independent implementation stepping with the same n, 2n, 4n steps - already shows its order; otherwise
+    # (e.g. a time modulation of about one period over T, where coarse Euler sums cancel by accident) the case
+    # is outside the asymptotic regime and says nothing.
+    ref_orders = []
+    for name in {"EF": ("EF",), "RK2": ("RK2mid", "RK2heun"), "RK4": ("RK4",)}[scheme]:
+        rerrs = []
+        for m in (n, 2 * n, 4 * n):
+            x, y, h = X.copy(), Y.copy(), T / m
+            for j in range(m):
+                x, y = ref_step(name, f, x, y, j * h, h, dx, dy)
+            rerrs.append(float(np.max(np.hypot(x - fx, y - fy))))
+        for a, b in ((0, 1), (1, 2)):
+            if rerrs[b] > floor and rerrs[a] > floor:
+                ref_orders.append(math.log2(rerrs[a] / rerrs[b]))
+    if not ref_orders or max(ref_orders) < k - 0.25:
+        res.cls("not_asymptotic_at_these_steps")
+        return res
     res.nontrivial = True
     p = max(orders)
     res.check(p >= k - 0.5, f"order_{scheme}",
@@ -392,6 +410,32 @@ def helper_oracle(case) -> core.CaseResult:
     if not orders:
         res.cls("below_noise_floor")
         return res
+
+    def ref_vel(x, y, h):  # the tableau, written out independently of the library
+        p0, q0 = sample(x, y)
+        if which == 1:
+            return p0, q0
+        if which == 2:
+            sv = case["s"]
+            p1, q1 = sample(x + sv * h * p0, y + sv * h * q0)
+            mm = 1 / (2 * sv)
+            return (1 - mm) * p0 + mm * p1, (1 - mm) * q0 + mm * q1
+        p1, q1 = sample(x + 0.5 * h * p0, y + 0.5 * h * q0)
+        p2, q2 = sample(x + 0.5 * h * p1, y + 0.5 * h * q1)
+        p3, q3 = sample(x + h * p2, y + h * q2)
+        return (p0 + 2 * p1 + 2 * p2 + p3) / 6, (q0 + 2 * q1 + 2 * q2 + q3) / 6
+
+    rerrs = []
+    for m in (n, 2 * n, 4 * n):
+        x, y, h = X0.copy(), Y0.copy(), T / m
+        for _ in range(m):
+            pu, pv = ref_vel(x, y, h)
+            x, y = x + h * pu, y + h * pv
+        rerrs.append(float(np.max(np.hypot(x - fx, y - fy))))
+    ref_orders = [math.log2(rerrs[a] / rerrs[b]) for a, b in ((0, 1), (1, 2)) if rerrs[a] > 1e-10 and rerrs[b] > 1e-10]
+    if not ref_orders or max(ref_orders) < k - 0.25:
+        res.cls("not_asymptotic_at_these_steps")  # judged only where the tableau itself shows its order
+        return res
     res.nontrivial = True
     res.check(max(orders) >= k - 0.5, f"helper_order_{which}",
               f"get_velocity{which} (s={case['s']}): observed order {max(orders):.2f}, errors {errs}")
@@ -422,7 +466,10 @@ def stock_cases(draw):
                 metric=draw(st.sampled_from(["uniform", "varying", "varying"])), dx0=draw(st.floats(50, 5000)),
                 dt=draw(st.sampled_from([60, 600, 3600])), disp=draw(st.floats(0.05, 0.9)), gap=gap,
                 s=draw(st.integers(0, 3)) % gap, reverse=draw(st.booleans()), npart=draw(st.sampled_from([4, 25])),
-                seed=draw(st.integers(0, 10**6)), steady=draw(st.sampled_from([False, False, True])))
+                seed=draw(st.integers(0, 10**6)), steady=draw(st.sampled_from([False, False, True])),
+                # current that varies with depth (factor per s-level, particles at different depths) and a share of
+                # particles that are switched off (they must stay; the others must not notice them)
+                shear=draw(st.booleans()), inactive=draw(st.sampled_from([0.0, 0.0, 0.25])))
 
 
 def stock_oracle(case) -> core.CaseResult:
@@ -439,9 +486,12 @@ def stock_oracle(case) -> core.CaseResult:
     if case["metric"] == "varying":
         dxa = case["dx0"] * (1 + 0.35 * np.sin(0.9 * ii + rng.uniform(0, 6)) * np.cos(0.7 * jj + rng.uniform(0, 6))
                              + 0.2 * (ii - jj) / (im + jm))
-    G = roms.make_grid(jm, im, N=2, h="flat", hval=50.0, mask="none", dx=case["dx0"], seed=case["seed"])
+    NL = 3
+    G = roms.make_grid(jm, im, N=NL, h="flat", hval=50.0, mask="none", dx=case["dx0"], seed=case["seed"],
+                       levels="random")
     G["pm"] = 1.0 / dxa
     G["pn"] = 1.0 / dxa
+    glev = rng.uniform(0.4, 1.0, NL) if case.get("shear") else np.ones(NL)
     # analytic field (m/s), linear in x, y, t; |u|, |v| * dt / min dx <= disp
     a = rng.uniform(-1, 1, (2, 4))
     if case["steady"]:
@@ -457,14 +507,14 @@ def stock_oracle(case) -> core.CaseResult:
     sgn = -1 if case["reverse"] else 1
     T = scen.T0 + scen.S(86400)
     ftimes = [T, T + scen.S(sgn * gap * dt)]  # frames at simulation steps 0 and gap
-    U = np.empty((2, 2, jm, im - 1))
-    V = np.empty((2, 2, jm - 1, im))
+    U = np.empty((2, NL, jm, im - 1))
+    V = np.empty((2, NL, jm - 1, im))
     ju, iu = np.mgrid[0:jm, 0:im - 1].astype(float)
     jv, iv = np.mgrid[0:jm - 1, 0:im].astype(float)
     for k, tk in enumerate((0.0, float(Tspan))):
         # the file holds the physical field; a reversed run feels its negative
-        U[k, :] = sgn * f(iu + 0.5, ju, tk)[0]
-        V[k, :] = sgn * f(iv, jv + 0.5, tk)[1]
+        U[k, :] = sgn * f(iu + 0.5, ju, tk)[0][None] * glev[:, None, None]
+        V[k, :] = sgn * f(iv, jv + 0.5, tk)[1][None] * glev[:, None, None]
     res.cls(case["scheme"])
     res.cls("metric_" + case["metric"])
     res.cls("reversed" if case["reverse"] else "forward")
@@ -473,6 +523,14 @@ def stock_oracle(case) -> core.CaseResult:
     n = case["npart"]
     X = rng.uniform(i0 + 1.6, i1 - 2.6, n)
     Y = rng.uniform(j0 + 1.6, j1 - 2.6, n)
+    Z = rng.uniform(0.0, 50.0, n) if case.get("shear") else np.full(n, 5.0)
+    off = rng.uniform(size=n) < case.get("inactive", 0.0)
+    # the factor each particle's depth gives (flat bottom: the same level depths everywhere); Z does not change
+    zcol = roms.grid_zr(G)[:, 0, 0]
+    gpart = np.empty(n)
+    for p_ in range(n):
+        kk, aa = roms.vert_weights(zcol, Z[p_])
+        gpart[p_] = aa * glev[max(kk - 1, 0)] + (1 - aa) * glev[kk]
     with e2e.workdir() as d:
         order = np.argsort(np.array(ftimes))
         roms.write_roms(d / "f.nc", G, [ftimes[i] for i in order], U[order], V[order], storage="f8")
@@ -490,7 +548,11 @@ def stock_oracle(case) -> core.CaseResult:
             modules["forcing"] = init_module("forcing", {"filename": str(d / "f.nc")}, modules)
             modules["tracker"] = init_module("tracker", {"advection": case["scheme"]}, modules)
             state, timer, force, tr = modules["state"], modules["time"], modules["forcing"], modules["tracker"]
-            state.append(X=X.copy(), Y=Y.copy(), Z=5.0)
+            state.append(X=X.copy(), Y=Y.copy(), Z=Z.copy())
+            if off.any():
+                act = np.ones(n, bool)
+                act[off] = False
+                state["active"] = act
             for _ in range(s0 + 1):  # Model.update order: clock, (release), forcing, (output), tracker
                 timer.update()
                 force.update()
@@ -504,10 +566,23 @@ def stock_oracle(case) -> core.CaseResult:
     gx, gy = np.array(state.X), np.array(state.Y)
     dxp = dxa[np.round(Y).astype(int), np.round(X).astype(int)]
     t0 = s0 * dt
-    preds = {k: ref_step(k, f, X, Y, t0, dt, dxp, dxp) for k in ("EF", "RK2mid", "RK2heun", "RK4")}
+    def fp(x, y, t):  # what each particle feels at its own depth
+        u_, v_ = f(x, y, t)
+        return u_ * gpart, v_ * gpart
+
+    preds = {k: ref_step(k, fp, X, Y, t0, dt, dxp, dxp) for k in ("EF", "RK2mid", "RK2heun", "RK4")}
+    on = ~off
+    if off.any():
+        res.cls("with_inactive_particles")
+        res.check(bool(np.all(gx[off] == X[off]) and np.all(gy[off] == Y[off])), "stock_inactive_moved",
+                  "a particle that is switched off was moved horizontally")
+    if case.get("shear"):
+        res.cls("depth_dependent_current")
+    if not on.any():
+        return res
 
     def dist(p):
-        return float(max(np.max(np.abs(gx - p[0])), np.max(np.abs(gy - p[1]))))
+        return float(max(np.max(np.abs(gx[on] - p[0][on])), np.max(np.abs(gy[on] - p[1][on]))))
 
     sch = case["scheme"]
     err = dist(preds["EF"]) if sch == "EF" else (dist(preds["RK4"]) if sch == "RK4" else
@@ -519,7 +594,7 @@ def stock_oracle(case) -> core.CaseResult:
               f"step {s0} of a {gap}-step frame interval, metric {case['metric']}, subgrid {case['sub']}")
 
     def sep(p, q):
-        return float(max(np.max(np.abs(preds[p][0] - preds[q][0])), np.max(np.abs(preds[p][1] - preds[q][1]))))
+        return float(max(np.max(np.abs(preds[p][0] - preds[q][0])[on]), np.max(np.abs(preds[p][1] - preds[q][1])[on])))
     res.nontrivial = min(sep("EF", "RK2mid"), sep("EF", "RK4")) > 1e-7
     return res
 
